@@ -355,11 +355,14 @@ pub struct RandGen {
     pub scope_pct: u64,
     /// favour a fixed "hot" field/element for a while, then switch (alternation between siblings)
     hot: Vec<Step>,
+    /// (absolute container path, index) of the last `utouch`: re-accessed through the `*_mut` paths after
+    /// later structural edits (a cached element pointer must not survive them)
+    last_mut: Option<(Vec<Step>, usize)>,
 }
 
 impl RandGen {
     pub fn new(rng: Rng, max_ops: usize) -> RandGen {
-        RandGen { rng, max_ops, closing: 0, scope_pct: 9, hot: vec![] }
+        RandGen { rng, max_ops, closing: 0, scope_pct: 9, hot: vec![], last_mut: None }
     }
 }
 
@@ -376,6 +379,18 @@ impl OpSource for RandGen {
         let room = v.cap.saturating_sub(v.len);
         let roll = r.below(100);
         // scope ops
+        // re-access the element index last taken with get_mut (or its neighbours) from the same level
+        if let Some((abs, i)) = self.last_mut.clone() {
+            if abs.starts_with(base) && r.chance(1, 7) {
+                let rel = &abs[base.len()..];
+                let j = match r.below(4) {
+                    0 => i + 1,
+                    1 => i.saturating_sub(1),
+                    _ => i,
+                };
+                return Some(format!("utouch {} {j}", print_path(rel)));
+            }
+        }
         let sp = self.scope_pct;
         if roll < sp {
             let mut steps = child_steps(bshape, bval, r);
@@ -454,6 +469,13 @@ impl OpSource for RandGen {
         }
         match gen_node_op(sh, va, r, room) {
             Some((name, args)) => {
+                if name == "utouch" {
+                    if let Ok(i) = args.parse::<usize>() {
+                        let mut abs = base.clone();
+                        abs.extend_from_slice(&path);
+                        self.last_mut = Some((abs, i));
+                    }
+                }
                 if args.is_empty() {
                     Some(format!("{name} {}", print_path(&path)))
                 } else {
@@ -494,6 +516,12 @@ impl OpSource for LimitGen {
                 _ => None,
             }
         };
+        let shrink_one = || -> Option<String> {
+            match (sh, va) {
+                (Shape::Rem, Val::Rem(b)) => Some(format!("set_len {p} {}", b.len().saturating_sub(1))),
+                _ => Some(format!("remove {p} 0")),
+            }
+        };
         match self.step {
             1 => {
                 if self.two_phase {
@@ -511,12 +539,21 @@ impl OpSource for LimitGen {
             }
             3 => grow(1), // one past: InvalidRealloc
             4 => Some(if self.keep_wrapper { "touch .".into() } else { "reborrow".into() }),
-            5 => match (sh, va) {
+            // continued use of the same accessor after the refused growth: every later op is compared
+            5 => grow(1), // still refused (at the limit)
+            6 => match (sh, va) {
+                (Shape::Rem, Val::Rem(b)) => Some(format!("set_len {p} {}", b.len().saturating_sub(1))),
+                _ => Some(format!("pop {p}")),
+            },
+            7 => grow(1), // fits again
+            8 => shrink_one(),
+            9 => match (sh, va) {
                 (Shape::Rem, _) => Some(format!("set_len {p} 3")),
                 _ => Some(format!("remove_range {p} 1 5000")),
             },
-            6 => grow(7),
-            7 => Some("reborrow".into()),
+            10 => grow(7),
+            11 => shrink_one(),
+            12 => Some("reborrow".into()),
             _ => None,
         }
     }
@@ -674,4 +711,127 @@ impl OpSource for GrowThen {
             _ => self.inner.next(v),
         }
     }
+}
+
+
+// ------------------------------------------------------------------------------------------------
+// "address coincidence": after get_mut(c) filled the list's element-pointer cache, insert elements before
+// it whose total byte size equals the size of the element in front, so that this element slides exactly
+// onto the cached address; then re-access through the `*_mut` paths. An address is not an element identity.
+
+/// a value of `shape` whose encoding has exactly `size` bytes (search over simple candidates)
+fn val_of_size(shape: &Shape, size: usize, r: &mut Rng) -> Option<Val> {
+    let fixed = |e: &Shape, i: usize| -> Vec<u8> { le_bytes(i as u128 + 1, e.fixed_size()) };
+    let direct = match shape {
+        Shape::List(e, lw) | Shape::Set(e, lw) => {
+            let body = size.checked_sub(*lw)?;
+            if body % e.fixed_size() != 0 {
+                return None;
+            }
+            Some(Val::Seq((0..body / e.fixed_size()).map(|i| fixed(e, i)).collect()))
+        }
+        Shape::Str(lw) => Some(Val::Seq((0..size.checked_sub(*lw)?).map(|i| vec![b'a' + (i % 26) as u8]).collect())),
+        Shape::Map(kw, v, lw) => {
+            let body = size.checked_sub(*lw)?;
+            let per = kw + v.fixed_size();
+            if body % per != 0 {
+                return None;
+            }
+            Some(Val::MapV((0..body / per).map(|i| (le_bytes(i as u128 + 1, *kw), vec![i as u8; v.fixed_size()])).collect()))
+        }
+        _ => None,
+    };
+    if let Some(v) = direct {
+        return if v.wf(shape) && v.size(shape) == size { Some(v) } else { None };
+    }
+    for _ in 0..400 {
+        let v = gen_val(shape, r, 1);
+        if v.size(shape) == size {
+            return Some(v);
+        }
+    }
+    None
+}
+
+/// For a container shape (`ulist` / `umap`) build (initial container value, op lines relative to `path`).
+/// `variant` selects the flavour (insert at 0 / in the middle, n = 1 / 2, with a live level, remove first).
+pub fn coincidence_case(cont: &Shape, path: &[Step], variant: usize, r: &mut Rng) -> Option<(Val, Vec<String>)> {
+    let p = print_path(path);
+    let (elem, entry, kw) = match cont {
+        Shape::UList(e) => (&**e, 4usize, 0usize),
+        Shape::UMap(kw, e) => (&**e, 4 + *kw, *kw),
+        _ => return None,
+    };
+    let dsize = elem.default_val().size(elem);
+    let unit = entry + dsize;
+    let n = if kw == 0 { 1 + variant % 2 } else { 1 };
+    // X will slide onto Y's address; Y has a different length
+    let x = val_of_size(elem, n * unit, r)?;
+    let mut y = None;
+    for d in [1usize, 2, 3, 5] {
+        for cand in [(n * unit).checked_sub(d), Some(n * unit + d)].into_iter().flatten() {
+            if y.is_none() {
+                y = val_of_size(elem, cand, r).filter(|v| *v != x);
+            }
+        }
+    }
+    let y = y?;
+    let z = val_of_size(elem, dsize + 1, r).or_else(|| Some(elem.default_val()))?;
+    let lead = variant / 2 % 2 == 1; // an extra element in front, insertion in the middle
+    let mut lines = vec![];
+    let (init, xi) = if kw == 0 {
+        let mut els = vec![];
+        if lead {
+            els.push(z.clone());
+        }
+        els.push(x.clone());
+        els.push(y.clone());
+        (Val::UList(els), if lead { 1 } else { 0 })
+    } else {
+        // keys leave room below for the inserted ones
+        let mut els = vec![];
+        if lead {
+            els.push((le_bytes(0x10, kw), z.clone()));
+        }
+        els.push((le_bytes(0x20, kw), x.clone()));
+        els.push((le_bytes(0x30, kw), y.clone()));
+        (Val::UMap(els), if lead { 1 } else { 0 })
+    };
+    let yi = xi + 1;
+    let live = variant / 4 % 2 == 1 && !path.is_empty();
+    let q = if live { ".".to_string() } else { p.clone() };
+    if live {
+        for st in path {
+            lines.push(format!("enter {}", print_step(*st)));
+        }
+    }
+    lines.push(format!("utouch {q} {yi}")); // fills the cache with Y
+    if kw == 0 {
+        lines.push(format!("uinsert {q} {xi} {n}"));
+    } else {
+        // a new key just below X's key lands at X's position
+        lines.push(format!("uminsert {q} {}", hex(&le_bytes(0x1f, kw))));
+    }
+    let now_x = xi + n;
+    lines.push(format!("utouch {q} {now_x}")); // X now starts where Y started
+    lines.push(format!("uget {q} {now_x}"));
+    lines.push(format!("utouch {q} {}", now_x + 1)); // Y itself
+    lines.push(format!("utouch {q} {xi}")); // a fresh default element
+    lines.push(format!("touch {}{}", if q == "." { String::new() } else { format!("{q}.") }, print_step(Step::Elem(now_x))));
+    lines.push(format!("utouch {q} {now_x}"));
+    // and the other direction: remove what was inserted (the cache is dropped by removals), re-access
+    if kw == 0 {
+        lines.push(format!("remove_range {q} {xi} {}", xi + n));
+    } else {
+        lines.push(format!("umremove {q} {}", hex(&le_bytes(0x1f, kw))));
+    }
+    lines.push(format!("utouch {q} {xi}"));
+    lines.push(format!("utouch {q} {yi}"));
+    if live {
+        for _ in path {
+            lines.push("leave".into());
+        }
+    }
+    lines.push("reborrow".into());
+    Some((init, lines))
 }
